@@ -719,11 +719,23 @@ func (so *SimpleOptimizer) transform(node parser.Node) (parser.Expr, bool) {
 				so.scope.define(spec.Ident.Name)
 			}
 		case token.Var, token.Const:
+			// The expressions of a const spec are repeated by following specs
+			// without values and are then evaluated under the bindings at
+			// that point; such expressions are left as they are.
+			shared := false
+			if decl.Tok == token.Const {
+				for _, sp := range decl.Specs {
+					if hasImplicitValue(sp.(*parser.ValueSpec)) {
+						shared = true
+						break
+					}
+				}
+			}
 			for _, sp := range decl.Specs {
 				spec := sp.(*parser.ValueSpec)
 				for i := range spec.Idents {
 					so.scope.define(spec.Idents[i].Name)
-					if i < len(spec.Values) && spec.Values[i] != nil {
+					if !shared && i < len(spec.Values) && spec.Values[i] != nil {
 						v := spec.Values[i]
 						if expr, ok = so.transform(v); ok {
 							spec.Values[i] = expr
